@@ -271,6 +271,10 @@ def gen_spec(seed: int, config: str | None = None) -> dict:
     big = any(z > 2000 for z in sizes)
     if big and knobs["read_chunk"]:
         knobs["read_chunk"] = max(knobs["read_chunk"], 1024 if max(sizes) < 100_000 else 65536)  # byte-at-a-time reads of a 20 KB record only burn the step budget
+    if knobs["read_chunk"] and any(n.get("final") == "continuous" for n in nodes):
+        # a poller that lives as long as the writers do polls hundreds of times: with 1-3 byte reads an implementation
+        # that re-reads the file on every poll (slower, but it delivers the same) would exhaust the step budget
+        knobs["read_chunk"] = max(knobs["read_chunk"], 16)
     spec = {"property": PROP, "config": config, "nodes": nodes, "faults": faults, "clock": clock, "knobs": knobs}
     if inproc:
         spec["inproc"] = {"mean_gap": bug.choice([2, 5, 20, 100])}
@@ -379,6 +383,7 @@ class Env(fsseam.FsEnv):
         self.spec = spec
         self.hist = hist
         self.write_buffer = spec["knobs"].get("write_buffer")
+        self.polls = {}  # node -> [simulated time, number of opens for reading at that time]
         self.pool = {}  # in-process mode: equal sub-containers of the payloads are one object
         self.reads = {}  # node -> count of raw reads
         self.wfault = {}
@@ -479,6 +484,22 @@ class Env(fsseam.FsEnv):
                     self.sim.yield_point("after-cut")
             else:
                 self.hist.partial_now.discard(name)
+
+    def on_open(self, fio, mode: str) -> None:
+        # a poller that opens the file again and again while simulated time stands still never gives control back
+        # (an `async` consumer that does not await between polls hangs its event loop): reported after 2000 such polls
+        # instead of burning the whole step budget
+        if "r" not in mode:
+            return
+        me = self.sim.me()
+        name = me.name if me else "?"
+        st = self.polls.get(name)
+        if st is None or st[0] != self.sim.now_ns:
+            self.polls[name] = [self.sim.now_ns, 1]
+            return
+        st[1] += 1
+        if st[1] > 2000:
+            raise Violation("no-progress", f"{name} polled the queue file {st[1]} times while simulated time stood still (it never awaits / returns)", "poll-without-await")
 
     # ---- reads
     def on_read(self, fio, asked: int) -> int:
@@ -1070,7 +1091,7 @@ _MODULE_CODE: dict = {}
 def run(spec: dict, decider: Decider, keep_events: bool = False) -> RunResult:
     rr = RunResult()
     fresh_modules()
-    sim = Sim(decider, step_cap=400_000 if spec.get("inproc") else 30_000, keep_events=keep_events)
+    sim = Sim(decider, step_cap=400_000 if spec.get("inproc") else 100_000, keep_events=keep_events)
     root = _SCRATCH["dir"] or os.getcwd()
     _SCRATCH["n"] += 1
     qdir = os.path.join(root, "q")
